@@ -8,7 +8,7 @@ CLAIMS = {
     "C07": dict(
         technique="bounded symbolic execution of the real accounting kernels (CrossHair + z3), path-exhaustive per partition",
         text="Every kernel behind the composition/charge accounting (decompose over the whole periodic table with a fake molecule, compare_dicts, diff_dicts, enforce_product_side + side selection, carbon label with its cache, is_carbon_balanced) is executed symbolically with unbounded integer counts and symbolic key presence and compared with a vector reference; each partition is explored to path exhaustion, so inside the stated key/atom bounds the verdict holds for every integer value.",
-        note="Assumes RDKit's AddHs/mixture additivity contract (fake molecule), CrossHair's exhaustion claim and z3. Key sets of 3-4 elements + charge; 1-3 atoms for decompose.",
+        note="Assumes RDKit's AddHs/mixture additivity contract (fake molecule), CrossHair's exhaustion claim and z3. Key sets of 3-4 elements + charge; 1-3 atoms for decompose. The contract 'decompose = true composition' of the real function with real RDKit is validated on a fixed table of 66 SMILES (concrete, reported as such).",
         ref="3/C07",
     ),
     "C08": dict(
@@ -61,16 +61,16 @@ CLAIMS.update({
     "C06": dict(technique=PIPE_TECH + "; metamorphic comparison of groupings inside one symbolic path", ref="3/C06", note=PIPE_NOTE + " Stubs are keyed by reaction content so that the same reaction meets the same environment in every grouping; worker counts are outside.",
         text="The same two reactions are run as [r1,r2], [r2,r1], [r1], [r2] and as two batches of one in a single symbolic path (r1 symbolic, r2 a fixed representative of each outcome class): every row field is identical in all groupings and the statistics of a grouping equal the key-wise sum of its parts; merge_stats is proved as a kernel with unbounded integers and symbolic key presence."),
     "C11": dict(technique="bounded symbolic execution of the real MCS stage inside the pipeline with a thread-pool shim (timeouts, zombie completion at call boundaries) and failing job bodies; fault patterns enumerated as partitions, compositions symbolic (CrossHair + z3)", ref="3/C11",
-        note=PIPE_NOTE + " ThreadPool, MCSMissingGraphAnalyzer.fit and find_missing_parts_pairs are outcome stubs; pre-emption inside a call and worker processes are outside.",
-        text="ensemble_mcs, single_mcs_safe, single_mcs, get_largest_condition, find_graph_dict and its per-pair wrapper, GraphMissingUncertainty, MCSSearch.find, impute_reaction and MCSBasedMethod.run are real code on the path. For each fault pattern of one row (search jobs ok/timeout/raise/uncertain, analysis job ok/timeout/raise, merge ok/raise, zombie completing at one of 5 boundaries) and both row orders: no row lost, each row solved-and-balanced or unchanged with an issue, and the fault-free neighbour identical to the fault-free run."),
+        note=PIPE_NOTE + " ThreadPool (one worker thread per pool object, a timed-out job keeps it busy), MCSMissingGraphAnalyzer.fit and find_missing_parts_pairs are outcome stubs; pre-emption inside a call and worker processes are outside.",
+        text="ensemble_mcs, single_mcs_safe, single_mcs, get_largest_condition, find_graph_dict and its per-pair wrapper, GraphMissingUncertainty, MCSSearch.find, impute_reaction and MCSBasedMethod.run are real code on the path. For each fault pattern of one row (search jobs ok/timeout/raise/uncertain/partial result with a None hole, analysis job ok/timeout/raise, merge ok/raise, zombie completing at one of 5 boundaries) and both row orders: no row lost, each row solved-and-balanced or unchanged with an issue, and the fault-free neighbour identical to the fault-free run."),
     "C12": dict(technique="bounded symbolic execution of rebalance/__rebalance_batch/__try_cache and CacheManager over an in-memory file system with a symbolic crash point per write() (CrossHair + z3)", ref="3/C12",
-        note="Pipeline replaced by a pure function of (row, threshold); os/open of batching replaced by an in-memory FS (truncate-on-open, append-on-write); json and hashlib real. Known findings C12-cache-key-omits-configuration and C12-truncated-entry-raises are excluded by region with their specified deviation.",
-        text="Histories of 2 (thorough 3) runs with solver-chosen layouts, batch sizes, thresholds and confidences, optionally one run killed at the k-th write() of a cache entry (every prefix incl. empty and complete): every completed run returns rows and stats equal to the same call without cache and does not raise, except exactly the two recorded deviations (stale entry under another threshold; truncated entry raises)."),
-    "C14": dict(technique=PIPE_TECH + "; two spellings of one reaction compared inside one symbolic path", ref="3/C14", note=PIPE_NOTE + " Equivalent spellings of abstract molecules are alias tokens; RDKit canonicalisation is outside. Known finding C14-substring-marker-order-sensitive is excluded by region.",
+        note="Pipeline replaced by a pure function of (row, threshold); os/open of batching replaced by an in-memory FS (truncate-on-open, append-on-write); json and hashlib real. The three C12 defects found (stale entry under another configuration, truncated entry raises, entry of a nested directory raises) were repaired in /repo; no region is excluded any more.",
+        text="Histories of 2 (thorough 3) runs with solver-chosen layouts, batch sizes, thresholds and confidences, optionally one run killed at the k-th write() of a cache entry (every prefix incl. empty and complete): also two caches nested in one another (cache/strict written first, cache used next and reverse) and statistics requested or not per run: every completed run returns rows and stats equal to the same call without cache and does not raise."),
+    "C14": dict(technique=PIPE_TECH + "; two spellings of one reaction compared inside one symbolic path", ref="3/C14", note=PIPE_NOTE + " Equivalent spellings of abstract molecules are alias tokens; RDKit canonicalisation is outside. The substring-marker defect was repaired in /repo; the remaining known finding C14-given-marker-molecule-position-sensitive (a given OO/[H]/[O] molecule not first on its side) is excluded by region.",
         text="Permutations within a side, alias spellings, atom-map decoration and [HH] vs [H][H] of one reaction are run through the real pipeline with shared symbolic compositions: whenever one spelling ends input-balanced or rule-based the other ends with the same verdict, method and multiset of added molecules. The marker-substring tests of the rule constraint step run as real code on the real marker molecules."),
     "C20": dict(technique="bounded symbolic execution of standardize_enol / standardize_hemiketal on a fake molecule with symbolic atom numbering (CrossHair + z3)", ref="3/C20",
-        note="Narrow claim: independence of the atom order only. Composition conservation, parsability, idempotence are RDKit and are not decided. Known finding C20-enol-roles-by-index-distance excluded by region.",
-        text="For every numbering of the three group atoms in a molecule of <= 8 atoms and every order of the index list, the recorded bond edits are exactly the tautomerisation on the atoms that truly play the roles and the error text is never returned, outside the recorded region (roles picked by index distance)."),
+        note="Narrow claim: independence of the atom order only. Composition conservation, parsability, idempotence are RDKit and are not decided. The defect found (roles picked by index distance) was repaired in /repo; no region is excluded.",
+        text="For every numbering of the three group atoms in a molecule of <= 8 atoms and every order of the index list, the recorded bond edits are exactly the tautomerisation on the atoms that truly play the roles and the error text is never returned; __call__ dispatches on the reported group (enol, hemiketal, phenol, ketone, enol ether, acetal with their arities), returns a SMILES and behaves the same on a second call of the same instance."),
     "C18": dict(technique=PIPE_TECH, ref="3/C18", note=PIPE_NOTE,
         text="Balancer.rebalance(stats=...) on one symbolic row and on two-row batches (second row a fixed representative of each outcome class, both orders, one or two batches): the five relations of the statement are recomputed by the harness from the returned rows and from a ghost record of the rows that entered the MCS stage."),
 })
